@@ -15,6 +15,7 @@ def check(ctx):
     ctx.rule("C08.P3", "strict comparison and upstream propagation: staleness decision table equals the specification")
     ctx.rule("C08.P4", "atomic publish of file stores: who-may-write, publication CFG, close-before-rename, staging name")
     ctx.assume("modified times increase with every write (assumption of the property); the argument from P1-P4 to the statement is on paper; cut positions are not enumerated")
+    ctx.run(E.rule_queue_is_library_queue, "C08.P2", ctx.model.one_func("run_function_on_graph", "ENGINE"))
     from .engineeval import rule_engine_evaluated
     # (P2 by evaluation: the engine as a whole never calls what is downstream of a failed call - so nothing is written from a failed computation)
     ctx.run(rule_engine_evaluated, "C08.P2", None, ("containment", "order", "budget"))
